@@ -97,7 +97,7 @@ def main(argv: list[str]) -> int:
         return 1 if r["violations"] else 0
 
     units = mod.units(tier, seed)
-    unit_timeout = float(os.environ.get("VERIF_UNIT_TIMEOUT", getattr(mod, "UNIT_TIMEOUT", {}).get(tier, 900 if tier == "quick" else 7200)))
+    unit_timeout = float(os.environ.get("VERIF_UNIT_TIMEOUT", getattr(mod, "UNIT_TIMEOUT", {}).get(tier, 420 if tier == "quick" else 5400)))
     with ThreadPoolExecutor(max_workers=jobs) as ex:
         results = list(ex.map(lambda u: run_child(pid, "unit", {"unit": u, "tier": tier, "seed": seed}, unit_timeout), units))
 
@@ -195,6 +195,8 @@ def main(argv: list[str]) -> int:
         pid, verdict, tier, seed, evaluations, len(keys), len(new_v), sum(n for _, n, _ in known_hits.values()), wall))
     interesting = {k: v for k, v in counters.items()}
     print("  observed: " + json.dumps(dict(sorted(interesting.items())))[:1800])
+    slow = sorted(((r.get("wall", 0), json.dumps(u)[:100]) for u, r in zip(units, results)), reverse=True)[:3]
+    print("  slowest units: " + "; ".join("%.1fs %s" % x for x in slow))
     for r in inconclusive[:5]:
         print("  inconclusive: " + r[:1500])
     if new_v:
